@@ -15,7 +15,7 @@ def wb : Mode → List Instr → Prop
   | .out, i :: r =>
     match i with
     | .lock => wb .inn r
-    | .act _ | .joinAndFree _ | .jaLoop | .create _ _ _ _ | .createRet _ | .joinM _ | .joinU _ | .detach _ | .sleepUntil _ | .yield | .onceCall _ | .libInit | .logName
+    | .act _ | .joinAndFree _ | .jaLoop | .create _ _ _ _ | .createRet _ | .joinM _ | .joinU _ | .detach _ | .sleepUntil _ | .yield | .onceCall _ | .libInit | .logName | .markM _ | .libReinit
     | .allocW _ _ | .freeW _ _ | .logLaunch _ _ | .logJoin _ | .logCount | .jaBegin | .jaInit | .jaRet _ _ => wb .out r
     | _ => False
   | .inn, i :: r =>
